@@ -601,7 +601,7 @@ class Node:
         if isinstance(child, self._tree.__class__):
             if deep is None:
                 deep = True
-            topnodes = child._root.children
+            topnodes = list(child._root.children)  # copy: don't reorder the source
             if isinstance(before, (int, Node)) or before is True:
                 topnodes.reverse()
             for n in topnodes:
